@@ -477,6 +477,50 @@ func init() {
 			})
 			fmt.Fprintf(w, "(* bam.Reader.Read: %s *)\nDefinition bam_Read_%s (v_%s : Z) : Z := %s.\n", bam.src(d.e), d.name, d.v, body)
 		}
+		// Storage of a record block (newBuffer) and what buffer.bytes hands out:
+		//   private_fresh: the block of a record above cap(br.buf) is a new allocation of this call;
+		//   inline_shared: a block in br.buf is marked shared;
+		//   bytes_copies:  bytes() copies the slice when the buffer is shared.
+		// Anything else than the known shapes yields false (storage that may be reused by a later call).
+		norm := func(n ast.Node) string { return strings.Join(strings.Fields(bam.src(n)), " ") }
+		nb := bam.funcDecl("", "newBuffer")
+		privateFresh, inlineShared, seenIf := false, false, false
+		privSrc := ""
+		ast.Inspect(nb.Body, func(n ast.Node) bool {
+			is, ok := n.(*ast.IfStmt)
+			if !ok || norm(is.Cond) != "size > cap(br.buf)" {
+				return true
+			}
+			seenIf = true
+			privSrc = norm(is.Body)
+			if len(is.Body.List) == 1 && norm(is.Body.List[0]) == "b.off, b.data = 0, make([]byte, size)" {
+				privateFresh = true
+			}
+			if eb, ok := is.Else.(*ast.BlockStmt); ok {
+				data, sh := false, false
+				for _, st := range eb.List {
+					switch norm(st) {
+					case "b.off, b.data = 0, br.buf[:size]":
+						data = true
+					case "b.shared = true":
+						sh = true
+					}
+				}
+				inlineShared = data && sh
+			}
+			return false
+		})
+		if !seenIf {
+			fatalf("bam: newBuffer: the size > cap(br.buf) decision was not found")
+		}
+		bb := bam.funcDecl("buffer", "bytes")
+		bytesCopies := len(bb.Body.List) == 3 &&
+			norm(bb.Body.List[0]) == "data := b.unsafeBytes(n)" &&
+			norm(bb.Body.List[1]) == "if !b.shared { return data }" &&
+			norm(bb.Body.List[2]) == "return append(data[:0:0], data...)"
+		fmt.Fprintf(w, "(* bam.newBuffer, size > cap(br.buf): %s *)\nDefinition bam_newBuffer_private_fresh : bool := %v.\n", privSrc, privateFresh)
+		fmt.Fprintf(w, "Definition bam_newBuffer_inline_shared : bool := %v.\n", inlineShared)
+		fmt.Fprintf(w, "(* bam.buffer.bytes: %s *)\nDefinition bam_buffer_bytes_copies : bool := %v.\n", norm(bb.Body), bytesCopies)
 		fmt.Fprintf(w, "(* bam.Reader.Read: (width, kind, destination) of the fixed part in source order; kind 0 unsigned, 1 int32, 2 discard; destinations as the writer's fields *)\n")
 		fmt.Fprintf(w, "Definition bam_Read_fixed : list (Z * Z * Z) := [\n  %s].\n", strings.Join(reads, ";\n  "))
 	}
